@@ -528,3 +528,222 @@ Lemma rules_example :
   must_reject 16384 0 (mkh 0 8 1 3) [3; 1; 2] = true /\ must_reject 16384 0 (mkh 4 0 0 5) [0; 1; 0; 0; 0] = true /\
   must_reject 16384 5 (mkh 0 0 5 0) [] = true /\ must_reject 16384 0 (mkh 0 8 1 3) [2; 1; 2] = false.
 Proof. repeat split. Qed.
+
+(* ================= stream level: the central statement ================= *)
+Lemma wf_writes c : wf_cmd c = true -> exists bytes h b, write_cmd c = Some bytes /\ expected c = Some (h, b).
+Proof.
+  destruct c; intro Hwf; try discriminate Hwf; unfold wf_cmd in Hwf; unfold write_cmd, expected;
+    unfold validStreamID, sid_ok, u32_ok, byte_ok, P31 in *.
+  - destruct (negb (negb (sid =? 0) && (sid <? 2147483648))) eqn:E; [lia|].
+    destruct pad as [pd|]; [destruct (Z.gtb_spec (blen pd) 255); [lia|]|]; eauto.
+  - destruct (negb (negb (sid =? 0) && (sid <? 2147483648))) eqn:E; [lia|]. cbv zeta.
+    destruct (prio_is_zero dep excl weight) eqn:Ep; cbn [negb andb orb] in *; [eauto|].
+    destruct (negb (negb (dep =? 0) && (dep <? 2147483648))) eqn:E2; [lia|]. eauto.
+  - destruct (negb (negb (sid =? 0) && (sid <? 2147483648))) eqn:E; [lia|]. eauto.
+  - destruct (negb (negb (sid =? 0) && (sid <? 2147483648))) eqn:E; [lia|]. eauto.
+  - eauto.
+  - eauto.
+  - destruct (negb (negb (sid =? 0) && (sid <? 2147483648))) eqn:E; [lia|].
+    destruct (negb (negb (promise =? 0) && (promise <? 2147483648))) eqn:E2; [lia|]. eauto.
+  - eauto.
+  - eauto.
+  - destruct ((inc <? 1) || (inc >? 2147483647)) eqn:E; [lia|]. eauto.
+  - destruct (negb (negb (sid =? 0) && (sid <? 2147483648))) eqn:E; [lia|]. eauto.
+Qed.
+
+Lemma check_order_exists c h b : wf_cmd c = true -> expected c = Some (h, b) ->
+  exists lhs0 l', check_order lhs0 h = Some l'.
+Proof.
+  destruct c; intros Hwf He; try discriminate Hwf; unfold expected in He; inversion He; subst h b; clear He.
+  11:{ exists sid. unfold check_order. cbn [h_ty h_sid h_fl]. unfold wf_cmd, sid_ok in Hwf.
+       destruct (Z.eqb_spec sid 0); [lia|]. cbn. rewrite Z.eqb_refl. cbn. eauto. }
+  all: exists 0; unfold check_order; cbn [h_ty h_sid h_fl]; cbn; eauto.
+Qed.
+
+Lemma read_frame_lhs maxread lhs0 lhs bs h b l0 rest :
+  read_frame maxread lhs0 bs = (ROk h b, l0, rest) -> check_order lhs h = None ->
+  read_frame maxread lhs bs = (RConn 1, lhs, rest).
+Proof.
+  unfold read_frame. destruct bs as [|x0 bs0] eqn:Ebs; [discriminate|]. rewrite <- Ebs.
+  destruct (blen bs <? 9); [discriminate|].
+  set (hh := parse_hdr bs). set (r9 := dropZ 9 bs).
+  destruct (h_len hh >? maxread); [discriminate|].
+  destruct ((h_len hh >? 0) && (blen r9 =? 0)); [discriminate|].
+  destruct (blen r9 <? h_len hh); [discriminate|].
+  destruct (parse_body hh (takeZ (h_len hh) r9)) as [bb|e] eqn:Ep.
+  - destruct (check_order lhs0 hh); [|discriminate]. intros H Hn. inversion H; subst. rewrite Hn. reflexivity.
+  - intros H. apply parse_err_not_ok in Ep. inversion H; subst e. destruct Ep.
+Qed.
+
+Lemma read_all_written cs : forall fuel lhs,
+  forallb wf_cmd cs = true -> existsb empty_headers cs = false -> forallb len_ok cs = true ->
+  blen (fst (write_all cs)) < 16777216 -> (length cs < fuel)%nat ->
+  read_all fuel 16777215 lhs (fst (write_all cs)) = expect_all lhs cs /\
+  forallb (fun e => e =? 0) (snd (write_all cs)) = true.
+Proof.
+  induction cs as [|c r IH]; intros fuel lhs Hwf Hne Hlen Hb Hf.
+  - destruct fuel; [simpl in Hf; lia|]. split; reflexivity.
+  - destruct fuel as [|f]; [simpl in Hf; lia|].
+    cbn [forallb existsb] in Hwf, Hne, Hlen.
+    apply andb_true_iff in Hwf. destruct Hwf as [Hc Hr].
+    apply orb_false_iff in Hne. destruct Hne as [Hec Her].
+    apply andb_true_iff in Hlen. destruct Hlen as [Hlc Hlr].
+    destruct (wf_writes c Hc) as (bytes & h & b & Ew & Ee).
+    cbn [write_all] in *. destruct (write_all r) as [bs es] eqn:Er. rewrite Ew in *. cbn [fst snd] in *.
+    rewrite blen_app in Hb. pose proof (blen_nonneg bytes). pose proof (blen_nonneg bs).
+    destruct (IH f (match check_order lhs h with Some l => l | None => 0 end) Hr Her Hlr ltac:(lia) ltac:(simpl in Hf; lia))
+      as [IH1 IH2].
+    split; [|cbn [forallb]; exact IH2].
+    unfold len_ok in Hlc. rewrite Ee in Hlc.
+    cbn [read_all expect_all]. rewrite Ee.
+    destruct (check_order lhs h) as [lhs'|] eqn:Eo.
+    + rewrite (roundtrip_all c bytes h b 16777215 lhs lhs' bs Hc Hec Ew Ee ltac:(lia) ltac:(lia) Eo).
+      cbn [terminal]. rewrite IH1. reflexivity.
+    + destruct (check_order_exists c h b Hc Ee) as (lhs0 & l' & E0).
+      pose proof (roundtrip_all c bytes h b 16777215 lhs0 l' bs Hc Hec Ew Ee ltac:(lia) ltac:(lia) E0) as Hrt.
+      rewrite (read_frame_lhs _ _ lhs _ _ _ _ _ Hrt Eo). reflexivity.
+Qed.
+
+(* what dec_rres_lite keeps of a result *)
+Definition lite (r : rres) : rres :=
+  match r with
+  | ROk h b => ROk h (match h_ty h, enc_body b with 4, [VB p; VZ vc] => BSettings p vc | _, _ => BUnknown [] end)
+  | _ => r
+  end.
+Lemma dec_lite_enc r : dec_rres_lite (enc_rres r) = Some (lite r).
+Proof. destruct r as [[ty fl sid len] b| | | | |]; reflexivity. Qed.
+Lemma dec_lite_all rs : all_some (map dec_rres_lite (map enc_rres rs)) = Some (map lite rs).
+Proof.
+  rewrite map_map. induction rs as [|r rs IH]; simpl; [reflexivity|].
+  rewrite dec_lite_enc. simpl in IH. rewrite IH. reflexivity.
+Qed.
+
+Lemma settings_bad_vcode fuel : forall p, settings_bad fuel p = negb (settings_vcode fuel p =? 0).
+Proof.
+  induction fuel as [|f IH]; intro p; cbn [settings_bad settings_vcode]; [reflexivity|].
+  destruct p as [|x p']; [reflexivity|].
+  set (c := setting_valid (dec16 (x :: p')) (dec32 (dropZ 2 (x :: p')))).
+  destruct (Z.eqb_spec c 0) as [E|E]; cbn [negb orb]; [apply IH|].
+  destruct (c =? 0) eqn:E2; [lia|]. reflexivity.
+Qed.
+
+Lemma bytes_ok_dropZ l : forall n, bytes_ok l = true -> bytes_ok (dropZ n l) = true.
+Proof.
+  induction l as [|x l IH]; intros n H; [reflexivity|].
+  simpl. destruct (n <=? 0); [exact H|]. apply IH. unfold bytes_ok in *. simpl in H.
+  apply andb_true_iff in H. tauto.
+Qed.
+
+(* a SETTINGS body produced by the parser carries the validity code of its own payload *)
+Lemma parse_settings_vcode h p b : h_ty h = 4 -> parse_body h p = POk b ->
+  b = BSettings p (settings_vcode (length p) p).
+Proof.
+  destruct h as [ty fl sid len]. cbn [h_ty]. intros -> H. unfold parse_body in H. cbn [h_ty h_fl h_sid h_len] in H.
+  cbn in H. split_ifs H; try discriminate.
+  destruct (settings_value (length p) p 4); split_ifs H; try discriminate; inversion H; reflexivity.
+Qed.
+Lemma parse_nonsettings h p b : h_ty h <> 4 -> parse_body h p = POk b ->
+  match b with BSettings _ _ => False | _ => True end.
+Proof.
+  destruct h as [ty fl sid len]. cbn [h_ty]. intros Hn H. unfold parse_body in H. cbn [h_ty h_fl h_sid h_len] in H.
+  destruct (Z.eqb_spec ty 4); [contradiction|].
+  repeat match type of H with
+         | context [if ?c then _ else _] => destruct c
+         end; try discriminate; inversion H; exact I.
+Qed.
+
+Lemma rules_ok_read_all fuel : forall maxread lhs bs,
+  bytes_ok bs = true -> rules_ok fuel maxread lhs bs (map lite (read_all fuel maxread lhs bs)) = true.
+Proof.
+  induction fuel as [|f IH]; intros maxread lhs bs Hb; [reflexivity|].
+  cbn [read_all]. destruct (read_frame maxread lhs bs) as [[r lhs'] rest] eqn:Er.
+  pose proof Er as Er0. unfold read_frame in Er.
+  destruct bs as [|x0 bs0] eqn:Ebs.
+  { inversion Er; subst. reflexivity. }
+  rewrite <- Ebs in *.
+  assert (Hnil : (blen bs =? 0) = false).
+  { rewrite Ebs, blen_cons. pose proof (blen_nonneg bs0). lia. }
+  destruct (Z.ltb_spec (blen bs) 9) as [H9|H9].
+  { inversion Er; subst r lhs' rest; try change (dec24 bs) with (h_len hh). cbn [terminal map lite rules_ok].
+    destruct (Z.ltb_spec (blen bs) 9); [|lia]. rewrite Hnil. reflexivity. }
+  set (hh := parse_hdr bs) in *. set (r9 := dropZ 9 bs) in *.
+  assert (Hshape : forall rs, rules_ok (S f) maxread lhs bs rs =
+    match rs with
+    | [] => true
+    | r :: rs' =>
+      if (h_len hh <=? maxread) && (blen r9 <? h_len hh) then
+        (match r with REOF | RUnexpEOF => true | _ => false end)
+      else
+        match r with
+        | ROk h' b =>
+          negb (must_reject maxread lhs hh (takeZ (h_len hh) r9)) && hdr_eqb hh h' &&
+          (match b with BSettings _ vc => negb (settings_bad (length (takeZ (h_len hh) r9)) (takeZ (h_len hh) r9) && (vc =? 0)) | _ => true end) &&
+          rules_ok f maxread
+                   (if (h_ty hh =? 1) || (h_ty hh =? 9) then (if hasf (h_fl hh) 4 then 0 else h_sid hh) else lhs)
+                   (dropZ (h_len hh) r9) rs'
+        | RStream _ _ => rules_ok f maxread lhs (dropZ (h_len hh) r9) rs'
+        | _ => true
+        end
+    end).
+  { intros rs. destruct rs as [|r1 rs1]; [reflexivity|]. cbn [rules_ok].
+    destruct (Z.ltb_spec (blen bs) 9); [lia|]. reflexivity. }
+  destruct (Z.gtb_spec (h_len hh) maxread) as [Hbig|Hsmall].
+  { inversion Er; subst r lhs' rest; try change (dec24 bs) with (h_len hh). cbn [terminal map lite]. rewrite Hshape.
+    destruct (Z.leb_spec (h_len hh) maxread); [lia|]. reflexivity. }
+  destruct ((h_len hh >? 0) && (blen r9 =? 0)) eqn:E1.
+  { inversion Er; subst r lhs' rest; try change (dec24 bs) with (h_len hh). cbn [terminal map lite]. rewrite Hshape.
+    destruct (Z.leb_spec (h_len hh) maxread); [|lia]. destruct (Z.ltb_spec (blen r9) (h_len hh)); [reflexivity|lia]. }
+  destruct (Z.ltb_spec (blen r9) (h_len hh)) as [Hshort|Hfull].
+  { inversion Er; subst r lhs' rest; try change (dec24 bs) with (h_len hh). cbn [terminal map lite]. rewrite Hshape.
+    destruct (Z.leb_spec (h_len hh) maxread); [|lia]. destruct (Z.ltb_spec (blen r9) (h_len hh)); [reflexivity|lia]. }
+  assert (Hcond : (h_len hh <=? maxread) && (blen r9 <? h_len hh) = false) by lia.
+  assert (Hbr : bytes_ok (dropZ (h_len hh) r9) = true).
+  { apply bytes_ok_dropZ. apply bytes_ok_dropZ. exact Hb. }
+  destruct (parse_body hh (takeZ (h_len hh) r9)) as [bb|e] eqn:Ep.
+  - destruct (check_order lhs hh) as [l2|] eqn:Eo.
+    + inversion Er; subst r lhs' rest; try change (dec24 bs) with (h_len hh). cbn [terminal map lite]. rewrite Hshape; rewrite ?Hcond, ?andb_false_r; cbv iota.
+      destruct (read_frame_ok_rules maxread lhs bs hh bb l2 _ Hb Er0) as (_ & _ & _ & _ & Hmr).
+      cbv zeta in Hmr. fold r9 in Hmr. rewrite Hmr. cbn [negb andb].
+      assert (Hh : hdr_eqb hh hh = true) by (unfold hdr_eqb; rewrite !Z.eqb_refl; reflexivity). rewrite Hh. cbn [andb].
+      assert (Hl2 : l2 = (if (h_ty hh =? 1) || (h_ty hh =? 9) then (if hasf (h_fl hh) 4 then 0 else h_sid hh) else lhs)).
+      { unfold check_order in Eo. split_ifs Eo; try discriminate; inversion Eo; reflexivity. }
+      rewrite <- Hl2. rewrite (IH maxread l2 _ Hbr). rewrite andb_true_r.
+      destruct (Z.eq_dec (h_ty hh) 4) as [E4|N4].
+      * rewrite E4. rewrite (parse_settings_vcode hh _ bb E4 Ep). cbn [enc_body].
+        rewrite settings_bad_vcode. destruct (settings_vcode _ _ =? 0); reflexivity.
+      * pose proof (parse_nonsettings hh _ bb N4 Ep) as Hns.
+        destruct (h_ty hh) as [|[q|q|]|]; try reflexivity;
+          try (destruct q as [q|q|]; try reflexivity; destruct q; try reflexivity).
+        all: try (exfalso; apply N4; reflexivity).
+        all: destruct (enc_body bb) as [|[?|?|?] [|[?|?|?] [|? ?]]]; reflexivity.
+    + inversion Er; subst r lhs' rest; try change (dec24 bs) with (h_len hh). cbn [terminal map lite]. rewrite Hshape; rewrite ?Hcond, ?andb_false_r; cbv iota. reflexivity.
+  - inversion Er; subst r lhs' rest; try change (dec24 bs) with (h_len hh). pose proof (parse_err_not_ok _ _ _ Ep) as Hne.
+    destruct e as [? ?|c|s c| | |]; try contradiction; cbn [terminal map lite]; rewrite Hshape; rewrite ?Hcond, ?andb_false_r; cbv iota; try reflexivity.
+    apply IH. exact Hbr.
+Qed.
+
+Lemma prop_C32_of_model i : wf_C32 i = true -> kf_C32 i = 0 -> prop_C32 i (run_C32 i) = true.
+Proof.
+  unfold wf_C32, kf_C32, prop_C32, run_C32. destruct (dec_input i) as [[mr cs]|]; [|discriminate].
+  destruct (write_all cs) as [wire errs] eqn:Ew. cbn [fst snd]. intros Hwf Hkf.
+  apply andb_true_iff in Hwf. destruct Hwf as [Hwf H4]. apply andb_true_iff in Hwf. destruct Hwf as [Hwf H3].
+  apply andb_true_iff in Hwf. destruct Hwf as [H1 H2].
+  unfold vLZ. rewrite dec_lite_all. rewrite (rules_ok_read_all _ _ _ _ H1). cbn [andb].
+  destruct (all_wf cs) eqn:Eall; cbn [andb]; [|reflexivity].
+  destruct (Z.eqb_spec mr 16777215) as [->|]; [|reflexivity].
+  assert (Hne : existsb empty_headers cs = false) by (destruct (existsb empty_headers cs); [discriminate|reflexivity]).
+  destruct (read_all_written cs (fuel_of wire) 0 Eall Hne H4) as [Hr He].
+  - rewrite Ew. cbn [fst]. lia.
+  - apply Nat.ltb_lt. exact H3.
+  - rewrite Ew in Hr, He. cbn [fst snd] in Hr, He. rewrite Hr.
+    assert (Hz : forallb (fun e : val => val_eqb e (VZ 0)) (map VZ errs) = true).
+    { clear -He. induction errs as [|e r IH]; [reflexivity|]. cbn [forallb map] in *.
+      apply andb_true_iff in He. destruct He as [E1 E2]. cbn [val_eqb]. rewrite E1. cbn [andb]. apply IH. exact E2. }
+    rewrite Hz. cbn [andb]. apply val_eqb_refl.
+Qed.
+
+Lemma wf_C32_example :
+  wf_C32 (VL [VZ 16777215; VL [VL [VZ 1; VZ 3; VB [130; 134]; VZ 1; VZ 0; VZ 2; VZ 1; VZ 1; VZ 200];
+                               VL [VZ 9; VZ 3; VZ 1; VB [1; 2]]; VL [VZ 6; VZ 0; VB [1;2;3;4;5;6;7;8]]]]) = true /\
+  wf_C32 (VL [VZ 8; VL [VL [VZ 11; VB [0; 0; 5; 2; 0; 0; 0; 0; 1; 1; 2; 3; 4; 5]]; VL [VZ 10; VZ 8; VZ 0; VZ 0; VB [0; 0; 0; 0]]]]) = true.
+Proof. split; reflexivity. Qed.
